@@ -8,7 +8,8 @@ import Tahoe.Uri.Show
   `fsf <deep> <hex>`                 -> `<cap> ro=… mut=…`   from_string + is_readonly/is_mutable
   `un <deep> <rw|N> <ro|N>`          -> `err rw ro`          UnknownNode(rw, ro, deep_immutable)
   `spr <deep> <hex>`                 -> hex                  strip_prefix_for_ro
-  `cfc <deep> <w|N> <r|N>`           -> `K <node kind> ro mut` | `U err rw ro`   NodeMaker.create_from_cap -/
+  `cfc <deep> <w|N> <r|N>`           -> `K <node kind> ro mut` | `U err rw ro`   NodeMaker.create_from_cap (fresh)
+  `hist c:<deep>:<w|N>:<r|N> …`      -> results joined by `;`   a history of create_from_cap on one NodeMaker -/
 open Tahoe.Drv Tahoe.Uri
 
 abbrev B := Tahoe.Uri.Bytes
@@ -89,4 +90,29 @@ def handle : List String → String
     | _, _, _ => "bad-op"
   | _ => "bad-op"
 
-def main : IO Unit := mainLoop handle
+/-- `c:<deep>:<w|N>:<r|N>` -/
+def parseCall (t : String) : Option NmOp :=
+  match t.splitOn ":" with
+  | ["c", d, w, r] => do pure (.call (← parseOptBytes w) (← parseOptBytes r) (← parseBool d))
+  | _ => none
+
+def showNode : Node → String
+  | .known k cap =>
+    match (Node.known k cap).flags with
+    | some (ro, mu) =>
+      let roS := if k == .immutableVerifier then "-" else showOptBool (some ro)
+      s!"K {nodeKindName k} {roS} {showOptBool (some mu)}"
+    | none => "K?"
+  | .unknown n => s!"U {showUnknownNode n}"
+
+/-- `hist c:… c:…`: a history of create_from_cap calls on ONE NodeMaker (cache kept, nothing collected) -/
+def handleHist (toks : List String) : String :=
+  match toks.mapM parseCall with
+  | some ops => ";".intercalate ((runHistory [] ops).map showNode)
+  | none => "bad-op"
+
+def handleAll : List String → String
+  | "hist" :: toks => handleHist toks
+  | toks => handle toks
+
+def main : IO Unit := mainLoop handleAll
